@@ -43,7 +43,7 @@ def gen(r, tier, i):
     procs = []
     for pid in range(n):
         procs.append({'pid': pid, 'ts': r.choice(TS), 'bflag': r.random() < 0.5,
-                      'emit': {v: r.random() < 0.6 for v in ('a', 'b', 'q', 'q2', 'qser', 'ser', 'falsy', 'qgrid')}})
+                      'emit': {v: r.random() < 0.6 for v in ('a', 'b', 'q', 'q2', 'qser', 'qser2', 'ser', 'falsy', 'qgrid')}})
     overrides = []
     for pid in range(n):
         k = r.random()
@@ -136,6 +136,8 @@ def build(spec, emit_step):
                       'ser': {'_default': 0, '_emit': em['ser'], '_serializer': 'vmon_tag'},
                       # a custom serializer on a variable whose default is a quantity
                       'qser': {'_default': 2.0 * units.fg, '_emit': em['qser'], '_serializer': 'vmon_tag'},
+                      # declared units and a custom serializer together
+                      'qser2': {'_default': 3.0 * units.fg, '_units': units.fg, '_emit': em.get('qser2', False), '_serializer': 'vmon_tag'},
                       'falsy': {'_default': 3, '_emit': em['falsy'], '_updater': 'set'},
                       # an array with units and two dimensions (never updated)
                       'qgrid': {'_default': _env['np'].array([[1.75, 2.75, 3.75], [0.5, 1.5, 2.5]]) * units.fg,
@@ -349,7 +351,7 @@ def expected_row(spec, snap, fl):
             v = '!units[%s]' % str(v.to(units.fg))
         elif path[-1] == 'ser':
             v = 'tag:%s' % (v,)
-        elif path[-1] == 'qser':
+        elif path[-1] in ('qser', 'qser2'):
             v = 'tag:%s' % (v.to(units.fg),)
         elif path[-1] == 'qgrid':
             v = [['!units[%s]' % str(x) for x in row] for row in v.to(units.fg)]
